@@ -28,6 +28,16 @@ CLAIMED = {
 }
 
 CLAIMED.update({
+  "C06": ("exploration",
+          "deterministic simulation: lock-step refinement of a weighted problem against its row-scaled unweighted twin along one simulated history (caller-driven, then the real optimizer through a tap with the twin slaved to it), plus unit-weight and zero-weight/deleted-row twins",
+          "From one seeded scenario two problems are built: A with diagonal weights w, B without weights whose model multiplies row i of the basis matrix and of every derivative matrix by w_i and whose observations are w.Y. Both follow the same history: build, caller-driven updates and Jacobians, then every parameter vector A's optimizer applies (accepted and rejected trial steps) is replayed on B and residuals and Jacobian are compared at every step; finally fit_with_statistics runs independently on both and results, reduced chi2 and covariance are compared. Equality is demanded bitwise where it holds bitwise (probe) and otherwise within conditioning-aware tolerances with explicit gates (counted). Further twins: all-ones weights vs none; one weight 0 vs that row deleted (its residual must be exactly 0, everything else equal). No fault or schedule enters this property; the simulator contributes the optimizer-driven history and the lock-step comparison. Sampling, not proof.",
+          "Trusted: reference singular values (one-sided Jacobi, f64) for the gates; tolerances include a floor for the accuracy nalgebra's SVD actually delivers (about 1e-10 in f64). A decomposition that does not reconstruct its input is diagnosed separately (class SVD_INACCURATE, a known third-party finding).",
+          "5 (C06), 4"),
+  "C11": ("exploration",
+          "deterministic simulation of the rayon pool: seeded schedules (pool size 1-16, steal/migration, arm order, truly overlapped arms under shuttle's seeded schedulers) decide every join; parallel vs sequential twin and parallel vs parallel under other schedules",
+          "The parallel problem runs on a fork of rayon-core whose join/join_context/current_num_threads consult a seeded executor; rayon's iterator layer and nalgebra's column producers are real. One scenario is executed as the parallel problem under its schedule (optimizer on a tap), as the sequential twin, through LevMarSolver::fit (conversion to the sequential type must preserve state), and under two further schedules/pool sizes; 10-20% of runs overlap the two arms of stolen joins on shuttle threads with scheduling points at every model call. Checked: residuals/coefficients bitwise equal between flavours, Jacobians equal (bitwise probe, tolerance 64u of the column scale as requirement), the optimizer's whole trajectory and result equal while Jacobians are bitwise equal, the same parallel problem bitwise identical under every schedule and pool size, into_sequential and fit preserve state, a failing derivative yields None under every schedule, the real pool is never entered (probe). Sampling, not proof.",
+          "Trusted: the fork's seam (3 call sites, 1 module); the executor generates only outcomes a real pool can produce. Races inside one column computation are invisible to it (miri layer planned for that).",
+          "5 (C11), 3.5"),
   "C08": ("exploration",
           "deterministic simulation: seeded fits from far and hostile starts/values with non-finite model output injected at chosen calls, under a hang watchdog and a logical step bound, in both build profiles",
           "build -> set_params -> fit / fit_with_statistics -> confidence band under two regimes: 'far' (starts over twelve decades with random signs; the real optimizer walks into overflow and badly scaled bases on its own) and 'hostile' (IEEE special values in x, y, w, alpha, epsilon; degenerate shapes; non-finite values injected into model or closure output once / in bursts / forever). Single-threaded worker processes; a watchdog ends a worker whose model-seam heartbeat stalls and the hang must reproduce in isolation before it is reported. Checked: no operation panics, none hangs, model calls per fit stay within the logical bound derived from patience*(P+1), Ok results expose finite values (an empty cache is the permitted rejected state). Both build profiles. Sampling, not proof.",
